@@ -10,6 +10,16 @@ tie:   integer-valued grids (1-D, 2-D and 3-D points mixed, negative and zero we
        1,2,3,7,total-1,total,total+1,>total and the default; .size, .num_domains, the full .points and
        .weights sequences, the constructor's rejections.  All comparisons are done inside Coq by vm_compute
        on the model at Z (integers below 2^53 are exact as floats).
+forms: (round 3) the weight arrays come in float64 / float32 / int64 / int32 and the point arrays in float64 / int64,
+       mixed over the domains; weights are dyadic fractions n/2^s (exact in binary floating point; the model runs on the
+       numerators at Z and the observed value is compared after multiplying by 2^(sum of s)); one float64 grid may carry
+       31-bit weights 1+n/2^30 so that a detour through single precision is visible; the integrand returns numpy
+       scalars / Python floats / Python ints / 0-d arrays / integer arrays.  Every case is admitted only if the sum of
+       absolute values of all terms stays below 2^52 in units of the last place, so that no floating-point operation
+       of a correct implementation can round.
+hist:  (round 3) histories on ONE MultiDomainGrid object: integrate (any route), then re-weight a component grid
+       (setter, in-place slice assignment, *=), move its points, or replace md.grid_list[j], then observe again;
+       compared with run_history of the model (theorem history_routes_agree) and with the oracle on the current grids.
 search: every observation is also checked against the property's own oracle (explicit nested loops over
        Python ints, no numpy / itertools); a disagreement is reported with the concrete grids, integrand,
        mode and chunk size.
@@ -73,11 +83,31 @@ def gen(ctx: Ctx):
 def build_grid(gs):
     from grid.basegrid import Grid, OneDGrid
 
-    w = np.array(gs["wts"], dtype=float)
+    w = weights_array(gs, gs["wts"])
+    pdt = gs.get("pdt", "float64")
     if gs["dim"] == 1:
-        p = np.array([q[0] for q in gs["pts"]], dtype=float)
+        p = np.array([q[0] for q in gs["pts"]], dtype=float).astype(pdt)
         return OneDGrid(p, w) if gs.get("oned") else Grid(p, w)
-    return Grid(np.array(gs["pts"], dtype=float).reshape(len(gs["pts"]), gs["dim"]), w)
+    return Grid(np.array(gs["pts"], dtype=float).reshape(len(gs["pts"]), gs["dim"]).astype(pdt), w)
+
+
+def weights_array(gs, nums):
+    """numerators / 2^ws as an array of the grid's weight dtype (all values are exactly representable)."""
+    ws, wdt = gs.get("ws", 0), gs.get("wdt", "float64")
+    if wdt.startswith("int") and ws != 0:
+        raise ValueError("integer weight arrays need ws = 0")
+    return np.array([n / 2 ** ws for n in nums], dtype=float).astype(wdt)
+
+
+def points_array(gs, pts):
+    pdt = gs.get("pdt", "float64")
+    if gs["dim"] == 1:
+        return np.array([q[0] for q in pts], dtype=float).astype(pdt)
+    return np.array(pts, dtype=float).reshape(len(pts), gs["dim"]).astype(pdt)
+
+
+def scale_bits(doms):
+    return sum(g.get("ws", 0) for g in doms)
 
 
 def build_md(spec):
@@ -98,8 +128,9 @@ def domains_of(spec):
     return list(spec["grids"])
 
 
-def make_callable(poly, dims):
-    """Python integrand from the monomial data; works point-wise and vectorised over the last argument."""
+def make_callable(poly, dims, rform="np"):
+    """Python integrand from the monomial data; works point-wise and vectorised over the last argument.
+    rform: how the value is handed back (numpy scalar/array as computed, Python float, Python int / integer array, 0-d array)."""
 
     def comp(a, d, c):
         return a if dims[d] == 1 else a[..., c]
@@ -111,7 +142,15 @@ def make_callable(poly, dims):
             for d, c, e in facs:
                 term = term * comp(args[d], d, c) ** e
             tot = tot + term
-        return tot
+        if np.ndim(tot) == 0:
+            if rform == "py":
+                return float(tot)
+            if rform == "int":
+                return int(tot)
+            if rform == "0d":
+                return np.asarray(tot)
+            return tot
+        return tot.astype(np.int64) if rform == "int" else tot
 
     return f
 
@@ -140,6 +179,19 @@ def oracle_integral(doms, poly):
     return rec(0, [], 1)
 
 
+def abs_bound(doms, poly):
+    """Sum over the product set of |product of weight numerators| * (1 + sum of |monomials|): every partial sum that
+    any evaluation order can form is bounded by this (in units of 2^-scale_bits)."""
+    apoly = [(abs(c), fs) for c, fs in poly]
+
+    def rec(j, xs, w):
+        if j == len(doms):
+            return w * (1 + poly_int(apoly, xs))
+        return sum(rec(j + 1, xs + [[abs(x) for x in p]], w * abs(wt)) for p, wt in zip(doms[j]["pts"], doms[j]["wts"]))
+
+    return rec(0, [], 1)
+
+
 def oracle_enum(doms):
     """(points, weights) of the product set, last domain fastest, by explicit loops."""
     pts, wts = [[]], [1]
@@ -161,14 +213,33 @@ def oracle_size(doms):
 
 
 # ====================================================================== random data
-def rand_grid(rng, n=None, dim=None):
+def rand_grid(rng, n=None, dim=None, forms=True):
     dim = dim or rng.choice([1, 1, 3, 3, 2])
     n = n or rng.randint(1, 4)
     pts = [[rng.randint(-3, 3) for _ in range(dim)] for _ in range(n)]
     wts = [rng.choice([-2, -1, 1, 1, 2, 3, 3, 0]) for _ in range(n)]
     if all(w == 0 for w in wts):
         wts[0] = 2
-    return {"dim": dim, "pts": pts, "wts": wts, "oned": dim == 1 and rng.random() < 0.5}
+    g = {"dim": dim, "pts": pts, "wts": wts, "oned": dim == 1 and rng.random() < 0.5}
+    if forms:
+        set_form(rng, g)
+    return g
+
+
+def set_form(rng, g, ws=None, wdt=None, pdt=None, hp=False):
+    """Choose the storage form of a grid: scale of the dyadic weights, dtype of the weight and point arrays."""
+    if ws is None:
+        ws = 0 if rng.random() < 0.45 else rng.choice([1, 2, 3])
+    if wdt is None:
+        wdt = rng.choice(["float64", "float64", "int64", "int32", "float32"] if ws == 0 else ["float64", "float64", "float64", "float32"])
+    n = len(g["wts"])
+    if hp:  # 31-bit weights 1 + odd/2^30: exact in double precision, not in single precision
+        ws, wdt = 30, "float64"
+        g["wts"] = [2 ** 30 + rng.choice([-5, -3, -1, 1, 3, 7]) for _ in range(n)]
+    elif ws > 0:  # odd numerators: genuinely fractional weights
+        g["wts"] = [rng.choice([-3, -1, 1, 1, 3, 5, 7]) for _ in range(n)]
+    g["ws"], g["wdt"], g["pdt"] = ws, wdt, pdt or rng.choice(["float64", "float64", "int64"])
+    return g
 
 
 def rand_poly(rng, dims):
@@ -213,6 +284,21 @@ def make_specs(ctx: Ctx):
         g = rand_grid(rng, n=rng.randint(2, 4) if k <= 3 else rng.randint(2, 3))
         add([g], nd=k, tag=f"repeat{k}")
         add([g], share=k, tag=f"copies{k}")
+    # argument forms: integer / single-precision weights in one position, fractional double-precision weights elsewhere
+    for k in range(2, kmax + 1):
+        for pos in sorted({0, k - 1, rng.randrange(k)}):
+            for wdt in ("int64", "float32", "int32"):
+                gl = [set_form(rng, rand_grid(rng, n=rng.randint(2, 3), forms=False), ws=rng.choice([1, 2, 3]), wdt="float64") for _ in range(k)]
+                set_form(rng, gl[pos], ws=0 if wdt != "float32" else rng.choice([0, 1]), wdt=wdt)
+                add(gl, tag=f"form-{wdt}@{pos}of{k}")
+        add([set_form(rng, rand_grid(rng, n=rng.randint(2, 3), forms=False), ws=0, wdt="int64", pdt="int64") for _ in range(k)], tag=f"form-allint{k}")
+        g = set_form(rng, rand_grid(rng, n=rng.randint(2, 3), forms=False), ws=0, wdt=rng.choice(["int64", "float32"]))
+        add([g], nd=k, tag=f"form-repeat{k}")
+    for pos, wdt in ((0, "float32"), (1, "float32"), (0, "int64"), (1, "int32")):  # single precision / integer next to 31-bit weights
+        gl = [rand_grid(rng, n=rng.randint(2, 3), forms=False) for _ in range(2)]
+        set_form(rng, gl[pos], ws=0 if wdt != "float32" else 1, wdt=wdt)
+        set_form(rng, gl[1 - pos], hp=True)
+        add(gl, tag=f"form-{wdt}@{pos}+hp")
     add([rand_grid(rng, n=1, dim=3)], tag="onepoint")
     add([rand_grid(rng, n=1, dim=1), rand_grid(rng, n=3, dim=3), rand_grid(rng, n=1, dim=2)], tag="sizes1")
     add([rand_grid(rng, n=5, dim=1), rand_grid(rng, n=1, dim=3)], tag="lastsize1")
@@ -285,15 +371,20 @@ Definition biggrid (n : N) : @grid Z := Grid (repeat [0] (N.to_nat n)) (repeat 0
 
 
 # ====================================================================== observation helpers
-def as_int(v):
-    """Exact integer value of a float observation, or None."""
+def as_int(v, g=0):
+    """Exact integer value of (observation * 2^g), or None."""
+    from fractions import Fraction
+
     try:
         x = float(v)
     except Exception:
         return None
-    if x != x or x in (float("inf"), float("-inf")) or x != int(x) or abs(x) >= 2 ** 53:
+    if x != x or x in (float("inf"), float("-inf")):
         return None
-    return int(x)
+    fr = Fraction(x) * 2 ** g
+    if fr.denominator != 1 or abs(fr.numerator) >= 2 ** 62:
+        return None
+    return int(fr.numerator)
 
 
 def observe(fn):
@@ -314,8 +405,16 @@ def flat_points(md):
     return out
 
 
+def grid_key(g):
+    d = {"dim": g["dim"], "pts": g["pts"], "wts": g["wts"]}
+    if g.get("ws", 0) or g.get("wdt", "float64") != "float64" or g.get("pdt", "float64") != "float64":
+        d["weights=wts/2^"] = g.get("ws", 0)
+        d["wdtype"], d["pdtype"] = g.get("wdt", "float64"), g.get("pdt", "float64")
+    return d
+
+
 def spec_key(spec):
-    d = {"grids": [{"dim": g["dim"], "pts": g["pts"], "wts": g["wts"]} for g in spec["grids"]], "num_domains": spec["nd"]}
+    d = {"grids": [grid_key(g) for g in spec["grids"]], "num_domains": spec["nd"]}
     if spec.get("share"):
         d["same_grid_listed"] = spec["share"]
     return json.dumps(d, separators=(",", ":"))
@@ -323,6 +422,161 @@ def spec_key(spec):
 
 def spec_points_total(spec):
     return oracle_size(domains_of(spec))
+
+
+# ====================================================================== histories on one object
+def hist_state(spec):
+    """Per-position grid data plus which positions hold the same Grid object."""
+    import copy
+
+    if spec.get("share"):
+        pos = [copy.deepcopy(spec["grids"][0]) for _ in range(spec["share"])]
+        grp = [0] * spec["share"]
+    else:
+        pos = copy.deepcopy(spec["grids"])
+        grp = list(range(len(pos)))
+    return {"pos": pos, "grp": grp, "nd": spec["nd"], "next": len(pos)}
+
+
+def hist_domains(state):
+    return [state["pos"][0]] * state["nd"] if state["nd"] is not None else list(state["pos"])
+
+
+def hist_apply_impl(md, state, op):
+    """Perform a state-changing operation on the implementation (before hist_apply_state)."""
+    import copy
+
+    j = op["j"]
+    g = md.grid_list[j]
+    gs = state["pos"][j]
+    if op["op"] == "setw":
+        if op["form"] == "setter":
+            g.weights = weights_array(gs, op["wts"])
+        elif op["form"] == "inplace":
+            g.weights[:] = weights_array(gs, op["wts"])
+        else:  # "imul": the new numerators are twice the old ones
+            g.weights *= 2
+    elif op["op"] == "setp":
+        if op["form"] == "setter":
+            g.points = points_array(gs, op["pts"])
+        else:
+            g.points[...] = points_array(gs, op["pts"])
+    elif op["op"] == "replace":
+        md.grid_list[j] = build_grid(copy.deepcopy(op["grid"]))
+    else:
+        raise ValueError(op["op"])
+
+
+def hist_apply_state(state, op):
+    """Update the data; returns the model operations (Coq terms)."""
+    import copy
+
+    j = op["j"]
+    same = [q for q in range(len(state["pos"])) if state["grp"][q] == state["grp"][j]]
+    if op["op"] == "setw":
+        for q in same:
+            state["pos"][q]["wts"] = list(op["wts"])
+        return [f"SetWeights {q}%nat {zl(op['wts'])}" for q in same]
+    if op["op"] == "setp":
+        for q in same:
+            state["pos"][q]["pts"] = [list(x) for x in op["pts"]]
+        return [f"SetPoints {q}%nat [" + "; ".join(zl(x) for x in op["pts"]) + "]" for q in same]
+    state["pos"][j] = copy.deepcopy(op["grid"])
+    state["grp"][j] = state["next"]
+    state["next"] += 1
+    return [f"ReplaceGrid {j}%nat {coq_grid(op['grid'])}"]
+
+
+def hist_observe(md, op, dims):
+    """Integrate on the object as it is now."""
+    f = make_callable([(c, [tuple(x) for x in fs]) for c, fs in op["poly"]], dims, op.get("rform", "np"))
+    route, c = op["route"], op.get("chunk")
+    if route == "default":
+        return md.integrate(f)
+    if route == "vec":
+        return md.integrate(f, non_vectorized=False)
+    if c is None:
+        return md.integrate(f, non_vectorized=True)
+    return md.integrate(f, non_vectorized=True, integration_chunk_size=c)
+
+
+def hist_replay(spec, ops):
+    """Fresh object, apply the operations in order; returns (observed*2^G or None, expected*2^G, G, raw) of the LAST operation,
+    which must be an integrate.  Raises if an operation does not fit the current shapes."""
+    md = build_md(spec)
+    state = hist_state(spec)
+    out = None
+    for op in ops:
+        doms = hist_domains(state)
+        if op["op"] == "int":
+            dims = [g["dim"] for g in doms]
+            G = scale_bits(doms)
+            poly = [(c, [tuple(x) for x in fs]) for c, fs in op["poly"]]
+            st, v = observe(lambda: hist_observe(md, op, dims))
+            out = (as_int(v, G) if st == "ok" else None, oracle_integral(doms, poly), G, v)
+            continue
+        if op["op"] == "obs":
+            continue
+        gs = state["pos"][op["j"]]
+        if op["op"] == "setw":
+            if op["form"] == "imul":
+                op = dict(op, wts=[2 * w for w in gs["wts"]])
+            if len(op["wts"]) != len(gs["wts"]):
+                raise ValueError("shape")
+        if op["op"] == "setp" and (len(op["pts"]) != len(gs["pts"]) or len(op["pts"][0]) != gs["dim"]):
+            raise ValueError("shape")
+        if op["op"] == "replace" and op["grid"]["dim"] != gs["dim"]:
+            raise ValueError("shape")
+        hist_apply_impl(md, state, op)
+        hist_apply_state(state, op)
+    return out
+
+
+def hist_fails(spec, ops):
+    try:
+        r = hist_replay(spec, ops)
+    except Exception:  # noqa: BLE001 - the shortened history is not executable
+        return False
+    return r is not None and r[0] != r[1]
+
+
+def hist_shrink(spec, ops):
+    """Greedy removal of operations (the last one, the failing observation, is kept)."""
+    ops = list(ops)
+    changed = True
+    while changed:
+        changed = False
+        for q in range(len(ops) - 2, -1, -1):
+            trial = ops[:q] + ops[q + 1:]
+            if hist_fails(spec, trial):
+                ops, changed = trial, True
+    return ops
+
+
+def rand_mutation(rng, state):
+    j = rng.randrange(len(state["pos"]))
+    gs = state["pos"][j]
+    n = len(gs["wts"])
+    r = rng.random()
+    if r < 0.55:
+        form = rng.choice(["setter", "setter", "inplace", "imul"])
+        if form == "imul":
+            wts = [2 * w for w in gs["wts"]]
+        elif gs.get("ws", 0) >= 30:
+            wts = [2 ** 30 + rng.choice([-7, -5, -1, 3, 5, 9]) for _ in range(n)]
+        elif gs.get("ws", 0) > 0:
+            wts = [rng.choice([-5, -3, -1, 1, 3, 5, 7, 9]) for _ in range(n)]
+        else:
+            wts = [rng.choice([-3, -2, -1, 1, 2, 4, 5]) for _ in range(n)]
+        if wts == gs["wts"]:
+            wts[0] += 2
+        return {"op": "setw", "j": j, "wts": wts, "form": form}
+    if r < 0.8:
+        pts = [[rng.randint(-3, 3) for _ in range(gs["dim"])] for _ in range(n)]
+        return {"op": "setp", "j": j, "pts": pts, "form": rng.choice(["setter", "inplace"])}
+    if state["nd"] is not None and rng.random() < 0.5:  # keep some repeated-grid histories free of replacement
+        return rand_mutation(rng, state)
+    return {"op": "replace", "j": j, "grid": rand_grid(rng, n=rng.randint(1, 4), dim=gs["dim"])}
 
 
 # ====================================================================== run
@@ -383,6 +637,9 @@ def run(ctx: Ctx):
         doms = domains_of(spec)
         dims = [g["dim"] for g in doms]
         total = oracle_size(doms)
+        G = scale_bits(doms)  # observed values are compared after multiplication by 2^G
+        for g in doms:
+            ctx.count(f"wdtype={g.get('wdt', 'float64')}" + ("/fractional" if g.get("ws", 0) else ""))
         name = f"m{i}"
         gls, nds = coq_md_args(spec)
         defs.append(f"Definition {name} : @mdgrid Z := getm (md_init {gls} {nds}).")
@@ -425,16 +682,16 @@ def run(ctx: Ctx):
                            {"spec": spec, "position": j, "observed_points": pts[j:j + 1], "expected_points": opts[j:j + 1]}, tag=("points", key0))
             else:
                 report(total, "corr_order_spec", f"points:{key0}", str(pts)[:200], ".points could not be enumerated as integer tuples", {"spec": spec}, tag=("points", key0))
-            st, wts = observe(lambda: [as_int(w) for w in md.weights])
+            st, wts = observe(lambda: [as_int(w, G) for w in md.weights])
             if st == "ok" and all(w is not None for w in wts):
                 case(f"leqb Z.eqb (md_weights ZOps {name}) {zl(wts)}", {"kind": "weights", "spec": spec})
                 if wts != owts:
                     j = next((j for j in range(min(len(wts), len(owts))) if wts[j] != owts[j]), min(len(wts), len(owts)))
                     report(total, "corr_order_spec", f"weights:{key0}", j,
                            f".weights differs from the products of the node weights in product order at position {j} (lengths {len(wts)} vs {len(owts)})",
-                           {"spec": spec, "position": j, "observed_weights": wts[j:j + 3], "expected_weights": owts[j:j + 3]}, tag=("weights", key0))
+                           {"spec": spec, "position": j, "observed_weights": wts[j:j + 3], "expected_weights": owts[j:j + 3], "in_units_of_2^-": G}, tag=("weights", key0))
             else:
-                report(total, "corr_order_spec", f"weights:{key0}", str(wts)[:200], ".weights could not be enumerated as integers", {"spec": spec}, tag=("weights", key0))
+                report(total, "corr_order_spec", f"weights:{key0}", str(wts)[:200], f".weights could not be enumerated as multiples of 2^-{G}", {"spec": spec}, tag=("weights", key0))
             ctx.case(("order", key0), traces=2)
 
         # ---- integrals: generic asymmetric polynomial + separable polynomial
@@ -446,8 +703,13 @@ def run(ctx: Ctx):
         for pi, poly in enumerate((poly_a, poly_s)):
             pname = f"p{i}_{pi}"
             defs.append(f"Definition {pname} : list (@monomial Z) := {coq_poly(poly)}.")
-            f = make_callable(poly, dims)
-            exp = oracle_integral(doms, poly)
+            if abs_bound(doms, poly) >= 2 ** 52:  # a correct implementation might round: not an exact case
+                ctx.count("skipped_not_exact")
+                continue
+            rform = ctx.rng.choice(["np", "np", "py", "int", "0d"])
+            ctx.count(f"integrand_returns={rform}")
+            f = make_callable(poly, dims, rform)
+            exp = oracle_integral(doms, poly)  # in units of 2^-G
             routes = [("default", None, lambda: md.integrate(f)),
                       ("vec", None, lambda: md.integrate(f, non_vectorized=False)),
                       ("nonvec-default-chunk", None, lambda: md.integrate(f, non_vectorized=True))]
@@ -457,40 +719,137 @@ def run(ctx: Ctx):
                 routes = routes[:3]
             for route, c, fn in routes:
                 st, v = observe(fn)
-                iv = as_int(v) if st == "ok" else None
-                rp = {"spec": spec, "poly": poly, "route": route, "chunk": c, "expected": exp,
+                iv = as_int(v, G) if st == "ok" else None
+                rp = {"spec": spec, "poly": poly, "route": route, "chunk": c, "rform": rform, "expected": exp, "in_units_of_2^-": G,
                       "reproduce": "see tools/props/c18.py: build_md(spec).integrate(make_callable(poly, dims), ...)"}
                 k = f"integrate:{route}:{c}:{key0}:{json.dumps(poly, separators=(',', ':'))}"
                 ctx.case(("int", i, pi, route, c))
                 ctx.count(f"route={route}")
                 if iv is None:
                     report(total, "corr_" + ("vec_eq_nested" if route in ("vec", "default") else "nonvec_chunk_independent"), k,
-                           str(v)[:160], f"integrate ({route}, chunk={c}) gave {str(v)[:160]}; the iterated quadrature is {exp}", rp, tag=("integrate", k))
+                           str(v)[:160], f"integrate ({route}, chunk={c}) gave {str(v)[:160]}; the iterated quadrature is {exp}/2^{G}", rp, tag=("integrate", k))
                     continue
                 coq = {"default": f"dflt {name} {pname}", "vec": f"vc {name} {pname}",
                        "nonvec-default-chunk": f"nv {name} {pname} default_chunk"}.get(route, f"nv {name} {pname} {c}%N")
                 case(f"Z.eqb ({coq}) {zi(iv)}", {"kind": "integrate", "spec": spec, "poly": poly, "route": route, "chunk": c, "obs": iv, "exp": exp})
                 if iv != exp:
                     report(total, "corr_" + ("vec_eq_nested" if route in ("vec", "default") else "nonvec_chunk_independent"), k, float(iv),
-                           f"integrate ({route}, chunk={c}) = {iv}, the nested sum over the product set is {exp}", rp, tag=("integrate", k))
+                           f"integrate ({route}, chunk={c}) = {iv}/2^{G}, the nested sum over the product set is {exp}/2^{G}", rp, tag=("integrate", k))
             # separable: product of the single-grid integrals computed by the implementation's own Grid.integrate
             if pi == 1:
                 prod_impl, prod_int = 1, 1
                 for d, (a, b, cc, e) in enumerate(facs):
                     gobj = build_grid(doms[d])
                     vals = np.array([float(a + b * p[cc] ** e) for p in doms[d]["pts"]])
-                    prod_impl *= as_int(gobj.integrate(vals)) or 0
+                    prod_impl *= as_int(gobj.integrate(vals), doms[d].get("ws", 0)) or 0
                     prod_int *= sum(w * (a + b * p[cc] ** e) for p, w in zip(doms[d]["pts"], doms[d]["wts"]))
                 ctx.case(("sep", i))
                 st, v = observe(lambda: md.integrate(f))
                 if prod_int != exp:
                     raise RuntimeError("oracle inconsistency: separable product differs from the nested sum")
-                if st != "ok" or as_int(v) != prod_impl or prod_impl != prod_int:
+                if st != "ok" or as_int(v, G) != prod_impl or prod_impl != prod_int:
                     report(total, "corr_separable_product", f"separable:{key0}:{json.dumps(facs)}", str(v)[:80],
-                           f"separable integrand: multi-domain integral {str(v)[:80]}, product of the single-grid integrals {prod_impl} (exact {prod_int})",
+                           f"separable integrand: multi-domain integral {str(v)[:80]}, product of the single-grid integrals {prod_impl}/2^{G} (exact {prod_int}/2^{G})",
                            {"spec": spec, "factors(a,b,comp,exp)": facs, "poly": poly, "expected": prod_int})
         if i < 3:
             ctx.sample({"spec": json.loads(key0), "poly": poly_a, "chunks": chunk_list, "nested_sum": oracle_integral(doms, poly_a)})
+
+    # ---------------------------------------------------------------- histories on one object
+    shrinks = [0]
+    cand = [i for i, sp in enumerate(specs) if not sp["big"] and spec_points_total(sp) <= 150]
+    multi = [i for i in cand if len(domains_of(specs[i])) >= 2]
+    ctx.rng.shuffle(multi)
+    chosen = sorted(multi[: (30 if ctx.quick else 250)] + [i for i in cand if len(domains_of(specs[i])) == 1][:3])
+    for i in chosen:
+        spec = specs[i]
+        key0 = spec_key(spec)
+        st, md = observe(lambda: build_md(spec))
+        if st == "exc":
+            continue  # reported above
+        state = hist_state(spec)
+        dims = [g["dim"] for g in hist_domains(state)]
+        polys = [rand_poly(ctx.rng, dims), rand_poly(ctx.rng, dims)]
+        for pi, poly in enumerate(polys):
+            defs.append(f"Definition hp{i}_{pi} : list (@monomial Z) := {coq_poly(poly)}.")
+        coq_ops, done = [], []
+        nsteps = ctx.rng.randint(5, 9)
+        plan = ["int"] + [ctx.rng.choice(["mut", "mut", "int", "int", "obs"]) for _ in range(nsteps)] + ["mut", "int", "int"]
+        first_route = ctx.rng.choice(["default", "vec", "vec", "nonvec"])
+        ctx.count("histories")
+        for t, kind in enumerate(plan):
+            doms = hist_domains(state)
+            total, G = oracle_size(doms), scale_bits(doms)
+            if kind == "mut":
+                op = rand_mutation(ctx.rng, state)
+                st, val = observe(lambda: hist_apply_impl(md, state, op))
+                done.append(op)
+                ctx.count(f"history_op={op['op']}" + (":" + op["form"] if "form" in op else ""))
+                if st == "exc":
+                    report(total, "corr_history_routes_agree", f"history:{key0}:{json.dumps(done, separators=(',', ':'))}", val,
+                           f"state change {op['op']} on a component grid raised {val}", {"spec": spec, "history": list(done)})
+                    break
+                coq_ops += hist_apply_state(state, op)
+                continue
+            hname = f"h{i}_{t}"
+            defs.append(f"Definition {hname} : @mdgrid Z := run_history m{i} [" + "; ".join(coq_ops) + "].")
+            if kind == "obs":
+                if total > 150:
+                    continue
+                opts, owts = oracle_enum(doms)
+                st, v = observe(lambda: (int(md.size), flat_points(md), [as_int(w, G) for w in md.weights]))
+                hk = f"history:{key0}:{json.dumps(done + [{'op': 'obs'}], separators=(',', ':'))}"
+                ctx.case(("hist-obs", i, t), traces=3)
+                if st == "ok" and all(w is not None for w in v[2]) and all(x is not None for tt in v[1] for p in tt for x in p):
+                    case(f"N.eqb (md_size {hname}) {v[0]}%N && pts_eqb (md_points {hname}) {coq_points(v[1])} && leqb Z.eqb (md_weights ZOps {hname}) {zl(v[2])}",
+                         {"kind": "history", "key": hk, "spec": spec, "obs": None})
+                if st != "ok" or v[0] != total or v[1] != opts or v[2] != owts:
+                    what = "size" if st == "ok" and v[0] != total else "points" if st == "ok" and v[1] != opts else "weights"
+                    report(total, "corr_history_routes_agree", hk, str(v)[:120] if st != "ok" else what,
+                           f"after the history, .size/.points/.weights do not describe the product set of the current component grids ({what} differs)",
+                           {"spec": spec, "history": done + [{"op": "obs"}], "expected_size": total, "expected_weights": owts[:8], "in_units_of_2^-": G},
+                           tag=("history", hk))
+                continue
+            # integrate on the object as it is now
+            pi = ctx.rng.randrange(2)
+            if abs_bound(doms, polys[pi]) >= 2 ** 52:
+                ctx.count("skipped_not_exact")
+                continue
+            route = first_route if t == 0 else ctx.rng.choice(["default", "vec", "vec", "nonvec", "nonvec"])
+            op = {"op": "int", "poly": polys[pi], "route": route, "rform": ctx.rng.choice(["np", "np", "py", "int", "0d"])}
+            if route == "nonvec":
+                op["chunk"] = ctx.rng.choice([1, 2, 3, 7, max(total - 1, 1), total + 1, None])
+            st, v = observe(lambda: hist_observe(md, op, dims))
+            exp = oracle_integral(doms, polys[pi])
+            iv = as_int(v, G) if st == "ok" else None
+            hk = f"history:{key0}:{json.dumps(done + [op], separators=(',', ':'))}"
+            ctx.case(("hist-int", i, t))
+            ctx.count(f"history_route={route}")
+            rp = {"spec": spec, "history": done + [op], "expected": exp, "in_units_of_2^-": G,
+                  "reproduce": "./check C18 --replay <this file>  (one MultiDomainGrid object; the operations are applied in order)"}
+            if iv is None:
+                report(total, "corr_history_routes_agree", hk, str(v)[:160],
+                       f"after {len(done)} state changes, integrate ({route}) gave {str(v)[:160]}; the iterated quadrature over the current grids is {exp}/2^{G}", rp, tag=("history", hk))
+            else:
+                c = op.get("chunk")
+                coq = {"default": f"dflt {hname} hp{i}_{pi}", "vec": f"vc {hname} hp{i}_{pi}"}.get(
+                    route, f"nv {hname} hp{i}_{pi} " + ("default_chunk" if c is None else f"{c}%N"))
+                case(f"Z.eqb ({coq}) {zi(iv)}", {"kind": "history", "key": hk, "spec": spec, "obs": iv})
+                if iv != exp:
+                    tags.add(("history", hk))
+                    hist = done + [op]
+                    if shrinks[0] < 6 and hist_fails(spec, hist):
+                        shrinks[0] += 1
+                        hist = hist_shrink(spec, hist)
+                        r = hist_replay(spec, hist)
+                        iv, exp, G = r[0] if r[0] is not None else str(r[3])[:80], r[1], r[2]
+                        rp = dict(rp, history=hist, expected=exp, **{"in_units_of_2^-": G})
+                    report(total + 10 * len(hist), "corr_history_routes_agree", f"history:{key0}:{json.dumps(hist, separators=(',', ':'))}",
+                           float(iv) if isinstance(iv, int) else iv,
+                           f"one MultiDomainGrid object, operations " + " -> ".join(o["op"] + (":" + o["form"] if "form" in o else ":" + o["route"] if "route" in o else "") for o in hist)
+                           + f": the last integrate = {iv}/2^{G}, the nested sum over the current component grids is {exp}/2^{G}", rp)
+            done.append(op)
+        if i == chosen[0]:
+            ctx.sample({"history_on": json.loads(key0), "operations": [{k: v for k, v in o.items() if k != "poly"} for o in done]})
 
     # ---------------------------------------------------------------- size of large product sets (no enumeration)
     for sizes, nd in (([65536, 65536, 65536, 65536], None), ([65536], 4), ([100000, 70000, 3], None)):
@@ -529,6 +888,11 @@ def run(ctx: Ctx):
             report(0, "corr_init", f"init:{spec_key(m['spec'])}", "rejected" if m["rejected"] else "accepted",
                    f"constructor {'rejects' if m['rejected'] else 'accepts (or builds an ill-formed grid from)'} an argument combination that the model "
                    f"{'accepts' if m['rejected'] else 'rejects'}", {"spec": m["spec"]}, found=True)
+        elif kind == "history":
+            if ("history", m["key"]) not in tags:
+                report(spec_points_total(m["spec"]), "corr_model_history", "model:" + m["key"], m.get("obs"),
+                       "model (run_history) and implementation disagree on an observation after a history although it matches the oracle",
+                       {"spec": m["spec"]}, found=False)
         elif kind == "bigsize":
             if ("bigsize", m["key"]) not in tags:
                 report(0, "corr_model_size", "model:" + m["key"], m["obs"],
@@ -559,7 +923,13 @@ def run(ctx: Ctx):
                        "(one asymmetric in the domains, one separable); routes: default, vectorised, non-vectorised with chunk sizes "
                        "1,2,3,7,total-1,total,total+1,>total and the default (two objects have more points than the default chunk); "
                        "every observed value (.size, .num_domains, full .points/.weights sequences, integrals) is compared with the Coq model by vm_compute "
-                       "and with a nested-loop oracle over Python ints; distinct = (object, integrand, route, chunk) tuples")
+                       "and with a nested-loop oracle over Python ints; distinct = (object, integrand, route, chunk) tuples. "
+                       "Argument forms: weight arrays float64/float32/int64/int32 and point arrays float64/int64 mixed over the domains, dyadic fractional weights "
+                       "(model on the numerators, comparison after scaling by the power of two), one 31-bit-weight grid next to single-precision/integer grids, "
+                       "integrand returning numpy scalar / Python float / Python int / 0-d array / integer array; a case is used only if the sum of absolute values "
+                       "of all terms is below 2^52 units in the last place (no rounding possible in a correct implementation). "
+                       "Histories: on one object, integrate / re-weight a component grid (setter, slice assignment, *=) / move its points / replace grid_list[j] / "
+                       "read size, points, weights, compared with run_history of the model and with the oracle on the current grids; failing histories are shrunk")
     ctx.cov["objects"] = len(specs)
     ctx.cov["coq_cases"] = len(cases)
     ctx.cov["integrate_defaults"] = {"non_vectorized": d_nonvec, "integration_chunk_size": d_chunk}
@@ -570,6 +940,8 @@ def run(ctx: Ctx):
         "hypothesis `vectorises fv f`: the user's callable applied to the array of all points of the last grid returns the point-wise values (true of the polynomial callables built here)",
         "hypothesis `wf_grid`: len(points) == len(weights), enforced by Grid.__init__",
         "ast extraction of the two defaults of integrate (fail closed on any other signature)",
+        "dyadic weights n/2^s and their products/sums are exact in binary floating point while the guarded bound (< 2^52 ulp) holds; float32 inputs are restricted to values whose products stay exact in single precision",
+        "history model: the object keeps references to its component grids and no other state (run_history); positions holding the same Grid object are updated together",
     ]
     ctx.assumptions += ["integrands are pure functions; the vectorised callable agrees with the point-wise one",
                         "exact arithmetic (the theorems are over a commutative semiring; floating-point rounding is outside the property)"]
@@ -586,17 +958,38 @@ def replay(rp):
         v = MultiDomainGrid(gl, rp["num_domains"]).size if rp.get("num_domains") else MultiDomainGrid(gl).size
         print("observed size:", int(v), "expected:", rp["expected"])
         return 1 if int(v) != rp["expected"] else 0
+    if "spec" in rp and "history" in rp:
+        ops = rp["history"]
+        if ops and ops[-1]["op"] == "int":
+            r = hist_replay(rp["spec"], ops)
+            print(f"observed: {r[3]}  (= {r[0]}/2^{r[2]});  nested sum over the current component grids: {r[1]}/2^{r[2]}")
+            return 1 if r[0] != r[1] else 0
+        md = build_md(rp["spec"])
+        state = hist_state(rp["spec"])
+        for op in ops[:-1]:
+            if op["op"] in ("setw", "setp", "replace"):
+                hist_apply_impl(md, state, op)
+                hist_apply_state(state, op)
+            elif op["op"] == "int":
+                hist_observe(md, op, [g["dim"] for g in hist_domains(state)])
+        doms = hist_domains(state)
+        G = scale_bits(doms)
+        opts, owts = oracle_enum(doms)
+        obs = (int(md.size), flat_points(md), [as_int(w, G) for w in md.weights])
+        print("observed size/weights:", obs[0], obs[2][:8], " expected:", oracle_size(doms), owts[:8], f"(units of 2^-{G})")
+        return 1 if obs != (oracle_size(doms), opts, owts) else 0
     if "spec" in rp and "poly" in rp and "route" in rp:
         spec = rp["spec"]
         poly = [(c, [tuple(x) for x in fs]) for c, fs in rp["poly"]]
         doms = domains_of(spec)
-        f = make_callable(poly, [g["dim"] for g in doms])
+        G = scale_bits(doms)
+        f = make_callable(poly, [g["dim"] for g in doms], rp.get("rform", "np"))
         md = build_md(spec)
         route, c = rp["route"], rp.get("chunk")
         st, v = observe(lambda: md.integrate(f) if route == "default" else md.integrate(f, non_vectorized=False) if route == "vec"
                         else md.integrate(f, non_vectorized=True) if c is None else md.integrate(f, non_vectorized=True, integration_chunk_size=c))
         exp = oracle_integral(doms, poly)
-        print("observed:", v, "nested sum over the product set:", exp)
-        return 1 if st != "ok" or as_int(v) != exp else 0
+        print("observed:", v, f"nested sum over the product set: {exp}/2^{G}")
+        return 1 if st != "ok" or as_int(v, G) != exp else 0
     print("reproduce:", rp.get("reproduce", "(see text)"))
     return 0
